@@ -197,6 +197,9 @@ pub fn run(cfg: &Cfg, rep: &mut Rep) {
     let tab = leap::table();
     let mut i = 0usize;
     for &(ts, o) in &tab {
+        if cfg.fuzz {
+            break;
+        }
         for sec in -3i128..=(o as i128 + 3) {
             for ns in [0i128, 1, 999_999_999] {
                 i += 1;
@@ -214,6 +217,7 @@ pub fn run(cfg: &Cfg, rep: &mut Rep) {
     let lats: Vec<Vec<i128>> = SCALES.iter().map(|s| gen::reading_lattice(*s, &w.leap)).collect();
     let nrand = cfg.budget(400_000);
     for k in 0..nrand {
+        let k = cfg.k(k, &mut r);
         let si = r.below(9) as usize;
         let s = SCALES[si];
         let c = if k % 50 == 0 {
